@@ -59,6 +59,10 @@ Proof. reflexivity. Qed.
 Lemma fingerprints_tied : gen_fingerprints = golden_fingerprints.
 Proof. reflexivity. Qed.
 
+(* compile flags and the candidate filter of glob() *)
+Lemma compile_sites_tied : dotall = gen_compile_dotall /\ gen_glob_skips_nondir_slash = true.
+Proof. split; reflexivity. Qed.
+
 Lemma model_tied_to_source :
   (gen_any_wild = golden_any_wild /\ gen_any_wild_flags = golden_any_wild_flags)
   /\ (pr re_q = gen_frag_q /\ pr re_star = gen_frag_star /\ pr re_dstar = gen_frag_dstar
@@ -70,7 +74,8 @@ Lemma model_tied_to_source :
   /\ (forall n, pr (RGrp n re_plus) = fill gen_post_encl_grp [n])
   /\ pr re_plus = gen_post_trail_plus /\ pr re_optslash = gen_post_optslash
   /\ re_escape_specials = gen_escape_specials
-  /\ gen_fingerprints = golden_fingerprints.
+  /\ gen_fingerprints = golden_fingerprints
+  /\ (dotall = gen_compile_dotall /\ gen_glob_skips_nondir_slash = true).
 Proof.
   split; [exact tokenizer_source_tied|].
   split; [repeat split; apply fragments_tied|].
@@ -78,5 +83,5 @@ Proof.
   split; [apply templates_tied|]. split; [apply templates_tied|].
   split; [apply post_processing_tied|]. split; [apply post_processing_tied|].
   split; [apply post_processing_tied|].
-  split; [exact escape_tied|exact fingerprints_tied].
+  split; [exact escape_tied|]. split; [exact fingerprints_tied|exact compile_sites_tied].
 Qed.
